@@ -15,7 +15,7 @@ def run(tier, rep, replay=None):
     drv = C.go_build_driver(w, "c01")
     tp = os.path.join(w, "t.ndjson")
     C.run([drv, "-scen", os.path.join(w, "scenarios.json"), "-terms", os.path.join(w, "terms.json"), "-out", tp, "-seed", str(C.SEED),
-           "-keys", "4" if thorough else "2", "-frodobits", "0" if thorough else "500", "-multi", "200" if thorough else "24"],
+           "-keys", "6" if thorough else "2", "-frodobits", "0" if thorough else "500", "-multi", "200" if thorough else "24"],
           timeout=3400, what="c01 driver")
     lines = C.read_ndjson(tp)
     bad, r = C.validate_lines(w, "Trace_KemCompose", "Lines.cfg", lines)
